@@ -84,6 +84,7 @@ def run(ck):
                     a = dict(e.attrs)
                     a.pop("hidden_class", None)
                     a.pop("ignoretype", None)
+                    a.pop("res", None)
                     if e.kind == "struct":
                         a["anymember"] = any(v <= min_vis for v in a.pop("member_vis"))
                     e2 = exportgen.Ent(e.kind, e.name, a, e.cls)
